@@ -39,6 +39,7 @@ RULE = ('cases = one fit output file each (kind fitter/direct, 1..4 records, sto
 REQUIRED_BRANCHES = ['open_error', 'iter_error', 'end_at_record_boundary', 'end_inside_record', 'offset_0',
                      'with_model_fluxes', 'without_model_fluxes', 'records_1', 'records_2', 'records_3', 'records_4',
                      'fitter', 'direct', 'fit_function', 'history_rewrite', 'history_shared_source', 'big_record',
+                     'model_id_exceeds_kept_count', 'later_names_longer', 'record_unusual_dtypes',
                      'yielded_1', 'yielded_2', 'yielded_3',
                      'zero_fit_first', 'zero_fit_middle', 'zero_fit_last', 'zero_fit_consecutive', 'complete_file']
 ASSUMPTIONS = ['CPython\'s unpickler is a deterministic function of the bytes it consumes (values are not modelled, only framing)',
@@ -141,6 +142,11 @@ def gen_case(rng, directed=None):
                     tab_w=[0.1, 100.] if small else sorted({nice(rng, 0.05, 500, 3) for _ in range(rng.randint(3, 10))}),
                     recs=[])
         case['tab_chi'] = [nice(rng, 1, 1e4, 3) for _ in case['tab_w']]
+        exotic = directed.get('exotic')
+        if exotic is None and not directed:
+            exotic = rng.random() < 0.15
+        if exotic:
+            case['exotic'] = True
         big = directed.get('big')
         if big is not None:
             case['big'] = big % nrec           # this record holds NBIG fits, generated from `oseed` when the file is built
@@ -157,6 +163,19 @@ def gen_case(rng, directed=None):
                 flags=[rng.choice([0, 1, 2, 3, 4, 9]) for _ in range(nb)],
                 source_name='s%d%s' % (i, '_' * rng.randint(0, 25)),
                 fluxes=_flux_rows(rng, nm, nb)))
+        if case.get('exotic'):
+            # representation classes: a large model grid of which few fits are kept (model_id values far above the number
+            # of kept fits), names that are longer in later records than in the first, non-default dtypes
+            grids = [(300, sorted(rng.sample(range(0, 10), 3))), (300, [rng.randint(256, 299), rng.randint(0, 255), 299]),
+                     (70000, [rng.randint(65536, 69999), rng.randint(100, 60000)]), (1200, [1199, 1000, 5, 999])]
+            for r, (g, best) in zip(case['recs'], grids):
+                r['grid'] = g
+                r['best_idx'] = best
+                r['dtypes'] = dict(zip(['av', 'sc', 'chi2', 'model_id', 'model_name', 'model_fluxes'],
+                                       [rng.choice(['float64', 'float32']), rng.choice(['float64', 'float32']),
+                                        rng.choice(['float64', 'float32']), rng.choice(['int64', 'int32', 'uint32']),
+                                        rng.choice(['U', 'S', 'U12']), rng.choice(['float64', 'float32'])]))
+                r['src_int_flux'] = rng.random() < 0.5
     return case
 
 
@@ -179,7 +198,9 @@ def gen_cases(seed, tier):
                 dict(kind='history', mode='rewrite', nrec=3, conv='all'), dict(kind='history', mode='shared_source', nrec=3, conv='none'),
                 dict(kind='history', mode='shared_source_inplace', nrec=2, conv='mixed'),
                 # a record with more fits than any plausible per-pickle chunk
-                dict(kind='direct', nrec=2, conv='none', small=True, big=0, zero=Z[:2])]
+                dict(kind='direct', nrec=2, conv='none', small=True, big=0, zero=Z[:2]),
+                # large grids with few kept fits, names growing from record to record, non-default dtypes
+                dict(kind='direct', nrec=4, conv='mixed', small=True, exotic=True, zero=Z)]
     if tier == 'thorough':
         directed += [dict(kind='direct', nrec=3, conv='none', small=True, big=1, zero=Z[:3]),
                      dict(kind='direct', nrec=1, conv='none', small=True, big=0, zero=Z[:1])]
@@ -319,6 +340,32 @@ def fit_file(case, d, path):
     return infos
 
 
+def grid_record(r, conv, meta):
+    """a record as Fitter.fit + keep(('N', k)) leaves it for a grid of r['grid'] models whose best fits are the models
+    r['best_idx'] (so model_id holds those grid indices, model_name the names 'm<index>'), then cast to r['dtypes']"""
+    g = r['grid']
+    best = r['best_idx']
+    nb = len(r['flags'])
+    chi2 = 1000. + np.arange(g) * 1e-3
+    for rank, idx in enumerate(best):
+        chi2[idx] = 1. + rank
+    fl = None
+    if conv:
+        fl = np.outer(np.arange(g) + 1., np.arange(nb) + 1.) * 0.5
+    info = pk.make_fitinfo(['m%d' % j for j in range(g)], chi2, av=np.arange(g) * 0.01, sc=np.arange(g) * -0.001,
+                           flags=r['flags'], source_name=r['source_name'], model_fluxes=fl, meta=meta)
+    info.keep(('N', len(best)))
+    if [int(i) for i in info.model_id] != list(best):
+        raise RuntimeError('harness self-check: kept model ids %r, wanted %r' % (list(info.model_id), best))
+    for attr, dt in r.get('dtypes', {}).items():
+        v = getattr(info, attr)
+        if v is not None:
+            setattr(info, attr, v.astype(dt))
+    if r.get('src_int_flux'):
+        info.source.flux = np.array([12, -999, 250, 7, 1, 3][:nb], dtype=int)
+    return info
+
+
 def build_infos(case, d):
     from astropy import units as u
     infos = []
@@ -345,9 +392,12 @@ def build_infos(case, d):
                 r = dict(r, names=['m%04d' % j for j in range(NBIG)], chi2=list(np.round(g.uniform(0.1, 1e3, NBIG), 3)),
                          av=list(np.round(g.uniform(0, 30, NBIG), 3)), sc=list(np.round(g.uniform(-3, 3, NBIG), 3)))
                 conv = False
-            info = pk.make_fitinfo(r['names'], [_f(c) for c in r['chi2']], av=r['av'], sc=r['sc'], flags=r['flags'],
-                                   source_name=r['source_name'], model_fluxes=r['fluxes'] if conv else None,
-                                   meta=(case['model_dir'], filters, ext))
+            if 'grid' in r:
+                info = grid_record(r, conv, (case['model_dir'], filters, ext))
+            else:
+                info = pk.make_fitinfo(r['names'], [_f(c) for c in r['chi2']], av=r['av'], sc=r['sc'], flags=r['flags'],
+                                       source_name=r['source_name'], model_fluxes=r['fluxes'] if conv else None,
+                                       meta=(case['model_dir'], filters, ext))
             _keep_zero(info, z)
             infos.append(info)
     return infos
@@ -541,6 +591,14 @@ def sweep(case, with_model=True):
                      .get(case['kind'], case['kind']))
         if case.get('big') is not None:
             branches.add('big_record')
+        if case.get('exotic'):
+            gr = [r for r in case['recs'] if 'grid' in r]
+            if any(max(r['best_idx']) >= 256 and len(r['best_idx']) < 256 for r in gr):
+                branches.add('model_id_exceeds_kept_count')
+            if len(gr) >= 2 and max(len(str(i)) for i in gr[1]['best_idx']) > max(len(str(i)) for i in gr[0]['best_idx']):
+                branches.add('later_names_longer')
+            if any(any(v not in ('float64', 'int64', 'U') for v in r.get('dtypes', {}).values()) or r.get('src_int_flux') for r in gr):
+                branches.add('record_unusual_dtypes')
         branches.add('records_%d' % k)
         if any(case['conv']):
             branches.add('with_model_fluxes')
@@ -655,7 +713,7 @@ def shrink(case):
             return bool(sweep(c, with_model=False)['violates'])
         except Exception:
             return False
-    if case['kind'] == 'history' or case.get('big') is not None:
+    if case['kind'] == 'history' or case.get('big') is not None or case.get('exotic'):
         return case
     while cur['nrec'] > 1:
         c = dict(cur)
